@@ -5,6 +5,7 @@ import datetime
 import enum
 
 import attr
+import six
 
 import asn1crypto
 
@@ -110,8 +111,11 @@ class PublicKeyX509(PublicKeyX509Base):
     @classmethod
     def from_der(cls, der):
         public_key = super(PublicKeyX509, cls).from_der(der)
-        # ensure recursive parsing
-        public_key._certificate.native  # pylint: disable=protected-access,pointless-statement
+        try:
+            # ensure recursive parsing
+            public_key._certificate.native  # pylint: disable=protected-access,pointless-statement
+        except (ValueError, KeyError, TypeError, AttributeError) as e:
+            six.raise_from(InvalidValue(bytes(der), cls, 'certificate'), e)
 
         return public_key
 
